@@ -394,7 +394,10 @@ func c19Siblings(c *Ctx, ms map[string]*fsmx.Machine) {
 		good := len(um) > 0
 		for _, u := range um {
 			ne := ssax.NilErrEdgesOfCall(fn, u)
-			for _, call := range ssax.Calls(fn, false, func(ci ssa.CallInstruction) bool { o := ssax.CalleeObj(ci); return o != nil && o.Name() == "MachineByState" }) {
+			for _, call := range ssax.Calls(fn, false, func(ci ssa.CallInstruction) bool {
+				o := ssax.CalleeObj(ci)
+				return o != nil && o.Name() == "MachineByState"
+			}) {
 				if len(ne) == 0 || ssax.ReachableAvoiding(fn, call, ne, nil) {
 					good = false
 				}
